@@ -83,8 +83,8 @@ func main() {
 	sz.Tables = *n
 	st := wpc13.Run(rand.New(rand.NewSource(*seed)), sz, s)
 	flush()
-	fmt.Printf("c13: tables=%d (multi-block=%d, with-filter=%d, >20kB=%d) file-bytes=%d read-ops=%d (x2 readers) compressed=%d (blocks=%d) snappy-streams=%d (rejected by Go: %d) damaged-files=%d damage-ops=%d driver-lines=%d mismatches=%d oracle-violations=%d\n",
-		st.Tables, st.MultiBlock, st.WithFilter, st.Big, st.FileBytes, st.ReadOps, st.Compressed, st.CompressedBlocks, st.SnappyStreams, st.SnappyBad, st.Damaged, st.DamageOps, lines, mism, viols)
+	fmt.Printf("c13: tables=%d (multi-block=%d, with-filter=%d, >20kB=%d) file-bytes=%d read-ops=%d (x2 readers) compressed=%d (blocks=%d) snappy-streams=%d (rejected by Go: %d) damaged-files=%d damage-ops=%d blockiter-walks=%d (sliced %d, moves %d) driver-lines=%d mismatches=%d oracle-violations=%d\n",
+		st.Tables, st.MultiBlock, st.WithFilter, st.Big, st.FileBytes, st.ReadOps, st.Compressed, st.CompressedBlocks, st.SnappyStreams, st.SnappyBad, st.Damaged, st.DamageOps, st.BiterWalks, st.BiterSliced, st.BiterMoves, lines, mism, viols)
 	if mism > 0 || viols > 0 {
 		os.Exit(1)
 	}
